@@ -124,7 +124,7 @@ func (r *run) Canon() string {
 		fmt.Fprintf(&b, "] mir=%s\n", s.mir.Canon())
 	}
 	b.WriteString("CONN " + r.w.Users[0].Conn.Canon() + "\n")
-	fmt.Fprintf(&b, "keyN=%d lastRemoved=%s/%s", r.keyN, r.lastRemoved, r.lastRemMbox)
+	fmt.Fprintf(&b, "keyN=%d lastRemoved=%s/%s tainted=%s", r.keyN, r.lastRemoved, r.lastRemMbox, r.taintCanon())
 	return b.String()
 }
 
@@ -164,7 +164,7 @@ func rowsString(rows []*imapc.FetchRow) string {
 }
 
 // classify describes how the long-lived session's rows differ from the fresh rows.
-func classify(own, fresh []*imapc.FetchRow) (string, string) {
+func classify(own, fresh []*imapc.FetchRow) (string, string, uint32) {
 	ou, fu := map[uint32]*imapc.FetchRow{}, map[uint32]*imapc.FetchRow{}
 	for _, x := range own {
 		ou[x.UID] = x
@@ -174,17 +174,17 @@ func classify(own, fresh []*imapc.FetchRow) (string, string) {
 	}
 	for _, x := range own {
 		if _, ok := fu[x.UID]; !ok {
-			return "removed-message-visible", fmt.Sprintf("UID %d is in the session's view but not in the mailbox", x.UID)
+			return "removed-message-visible", fmt.Sprintf("UID %d is in the session's view but not in the mailbox", x.UID), x.UID
 		}
 	}
 	for _, x := range fresh {
 		if _, ok := ou[x.UID]; !ok {
-			return "message-missing", fmt.Sprintf("UID %d is in the mailbox but not in the session's view", x.UID)
+			return "message-missing", fmt.Sprintf("UID %d is in the mailbox but not in the session's view", x.UID), x.UID
 		}
 	}
 	for i := range own {
 		if own[i].UID != fresh[i].UID {
-			return "order", "same UIDs in different order"
+			return "order", "same UIDs in different order", 0
 		}
 	}
 	for i := range own {
@@ -215,10 +215,10 @@ func classify(own, fresh []*imapc.FetchRow) (string, string) {
 			if len(extra) > 0 {
 				sig += "-stale"
 			}
-			return sig, fmt.Sprintf("UID %d: session sees %v, mailbox has %v", own[i].UID, a, b)
+			return sig, fmt.Sprintf("UID %d: session sees %v, mailbox has %v", own[i].UID, a, b), own[i].UID
 		}
 	}
-	return "", ""
+	return "", "", 0
 }
 
 // Extensions: PROBE every selected session (C01), then QUIESCE: deliver everything, NOOP, probe, compare with a
@@ -291,7 +291,31 @@ func (r *run) Extensions() []explore.Violation {
 			r.broken = err.Error()
 			continue
 		}
-		if sig, msg := classify(rows, fresh); sig != "" {
+		if sig, msg, uid := classify(rows, fresh); sig != "" {
+			// Which message is it? (from the session's view or from the mailbox)
+			key := ""
+			if d2, ok := r.w.DumpOf(s.s); ok {
+				for _, m := range d2.Msgs {
+					if m.UID == uid {
+						key = m.Remote
+					}
+				}
+			}
+			if key == "" {
+				if v2, err := ReadDB(r.w, 0); err == nil {
+					if mb2 := v2.MboxByID(d.MboxID); mb2 != nil {
+						for _, m := range mb2.Msgs {
+							if m.UID == uid {
+								key = m.Remote
+							}
+						}
+					}
+				}
+			}
+			if key != "" && r.tainted[key] {
+				sig += "+stale-own-action"
+				msg += " [a session had acted on this message while an older update about it was still undelivered to it]"
+			}
 			out = append(out, r.viol("C02", "converge", sig, fmt.Sprintf("session %d after quiescence + NOOP: %s; session rows %s, fresh rows %s", i, msg, rowsString(rows), rowsString(fresh))))
 		}
 	}
